@@ -86,7 +86,7 @@ CHECKS["C04"] = dict(
 
 CHECKS["C02"] = dict(
     category="model_checking",
-    text="spec/Framing.tla - the frame stream of a connection (header grammar of implementing_world.md spelled out in bytes, writer/reader positions, keystream positions; the reader is driven by the header BYTES only) - is model checked by TLC: HeaderExact, Aligned, RoundTrip, KeysAligned/InStep, BodyClear, NoStuckReader, HeaderCodec (band; whole range 0..0x7FFFFD in thorough). Every explored history (1-3 frames, body lengths around 0x7FFF / 0xFFFF / the caps, 3 expansions x 2 directions x {opcode-enum reader, expect helper, expect helper of another type} x {plain, encrypted}; 30k quick / 57k thorough) is replayed into the real write_*/read_*/expect_* functions (blocking, tokio, async-std): every header byte, total and declared length, reader position after each message, delivered message. thorough adds every body length 0..0x1_0010 and every 4,099th up to the cap. Seeded random sequences are recorded from the real code and validated by spec/TraceFraming.tla.",
+    text="spec/Framing.tla - the frame stream of a connection (header grammar of implementing_world.md spelled out in bytes, writer/reader positions, keystream positions; the reader is driven by the header BYTES only) - is model checked by TLC: HeaderExact, Aligned, RoundTrip, ForeignTransparent, KeysAligned/InStep, BodyClear, NoStuckReader, HeaderCodec (band; whole range 0..0x7FFFFD in thorough). The stream also carries FOREIGN frames (undefined opcode) and RUNT frames (size field below the opcode width, also behind the Wrath 3-byte marker) that no writer produces: every reader must report the opcode, consume exactly the frame and deliver the neighbouring messages unchanged. Every explored history (1-3 frames, body lengths around 0x7FFF / 0xFFFF / the caps, 3 expansions x 2 directions x {opcode-enum reader, expect helper, expect helper of another type} x {plain, encrypted}; 30k quick / 57k thorough) is replayed into the real write_*/read_*/expect_* functions (blocking, tokio, async-std): every header byte, total and declared length, reader position after each message, delivered message. thorough adds every body length 0..0x1_0010 and every 4,099th up to the cap. Seeded random sequences are recorded from the real code and validated by spec/TraceFraming.tla.",
     design_ref="DESIGN.md section 5 C02, notes/C02.md",
     note="Trusted: tools/framing_pool.py (opcodes / body shapes of 8 pool messages from the wowm text), the reading 0x7FF -> 0x7FFF of implementing_world.md, harness construction of a message with a requested body length, TLC + Json/IOUtils. Pool messages stand for all messages (the header paths are message independent except the compressed overrides, which only the random driver exercises). Bodies the form cannot express are out of scope.",
     technique="TLA+ spec model-checked with TLC; spec->impl replay of every explored history; impl->spec trace validation of random sequences with TLC",
@@ -107,10 +107,10 @@ CHECKS["C10"] = dict(
 )
 CHECKS["C03"] = dict(
     category="fault_enumeration",
-    text="The C03 fault family of spec/WowmWire.tla corrupts the canonical encodings of every message at chosen places (every field event set to zeros / ones / 1 / 0x7f.. / 2, truncation at every field boundary with a consistent and with the original header, trailing garbage, header size +1 / 0) and the driver adds seeded random bodies behind every defined opcode; each frame is decoded by the real public readers in a worker process with a 1 GiB address-space limit and a 5 s per-frame watchdog, with overflow checks on. Only Ok(_) and Err(_) are acceptable; panics, aborts (stack overflow, allocation failure), and timeouts are violations (~290k frames quick).",
+    text="The C03 fault family of spec/WowmWire.tla corrupts the canonical encodings of every message at chosen places (every field event set to zeros / ones / 1 / 0x7f.. / 2, truncation at every field boundary with a consistent and with the original header, trailing garbage, header size +1 / 0) and the driver adds seeded random bodies behind every defined opcode; each frame is decoded by the real public readers in a worker process with a 1 GiB address-space limit and a 5 s per-frame watchdog, with overflow checks on. Only Ok(_) and Err(_) are acceptable; panics, aborts (stack overflow, allocation failure), and timeouts are violations (~290k frames quick). Header-level faults come from spec/Framing.tla: frames with an undefined opcode and RUNT frames whose size field is smaller than the opcode field (2-byte form and Wrath 3-byte marker), alone and next to regular messages, through every world reader entry point (opcode enums, typed expect helpers, plain / decrypting, three flavours).",
     design_ref="DESIGN.md section 5 C03",
     note="Trusted: the worker isolation in tools/replay.py (resume after a killing record) and harness/vh/src/codec.rs (RLIMIT_AS, watchdog), the wire model for valid-up-to-one-field inputs. Not generated: zlib-level corruptions other than same-length replacements inside the plain payload, frames larger than a few hundred bytes.",
-    technique="fault family defined in the TLA+ wire spec and enumerated by TLC per behaviour, plus seeded random frames; every frame decoded in an isolated, resource-limited worker",
+    technique="fault families defined in the TLA+ wire spec (bodies) and the TLA+ framing spec (foreign and runt headers), enumerated by TLC per behaviour, plus seeded random frames; every frame decoded in an isolated, resource-limited worker",
 )
 
 CHECKS["C14"] = dict(
@@ -138,7 +138,7 @@ CHECKS["C19"] = dict(
 )
 CHECKS["C06"] = dict(
     category="model_checking",
-    text="spec/ChunkedRead.tla (transport buffer -> partly filled read_exact request -> bytes returned; Deliver, ReturnPending, CompleteRead, Eof) is model checked - NoLoss, CompleteGuard, ScheduleIndependent, InOrder; termination under weak fairness with unbounded Pending - for the read script of every login behaviour and of a pool of world messages; every transport schedule of messages up to 12 (16) bytes (all chunk compositions x Eof at every prefix x Pending placements, bounds in the evidence) and 64 (1,024) simulated schedules per longer length are replayed into scripted tokio / futures-io transports under all three generated variants of the login opcode-enum readers of the 6 protocol versions, expect_*_message for every login message, read_protocol, read_initial_message, every login writer, the world read_unencrypted / write_unencrypted / write_encrypted (fresh cipher half per run) of 3 expansions x 2 directions and typed world expect helpers; every async outcome is compared with the blocking outcome on the same delivered content (279k schedules / 35M async runs quick).",
+    text="spec/ChunkedRead.tla (transport buffer -> partly filled read_exact request -> bytes returned; Deliver, ReturnPending, CompleteRead, Eof) is model checked - NoLoss, CompleteGuard, ScheduleIndependent, InOrder; termination under weak fairness with unbounded Pending - for the read script of every login behaviour (incl. two extra explorations whose long string pattern is 256 and 257 bytes, the boundary of the login crate's CString cap) and of a pool of world messages; every transport schedule of messages up to 12 (16) bytes (all chunk compositions x Eof at every prefix x Pending placements, bounds in the evidence) and 64 (1,024) simulated schedules per longer length are replayed into scripted tokio / futures-io transports under all three generated variants of the login opcode-enum readers of the 6 protocol versions, expect_*_message for every login message, read_protocol, read_initial_message, every login writer, the world read_unencrypted / write_unencrypted / write_encrypted (fresh cipher half per run) of 3 expansions x 2 directions and typed world expect helpers; every async outcome is compared with the blocking outcome on the same delivered content (279k schedules / 35M async runs quick).",
     design_ref="DESIGN.md section 5 C06, notes/C06.md",
     note="Trusted: the transport abstraction (bytes per poll, Pending with wake, close at a prefix), read scripts from WowmWire events, the hand-polled futures with a counting waker (a lost wake-up is the verdict 'stuck'), generated entry points (tools/gen_chunks.py), TLC. Full Pending enumeration only up to length 7 (9); compressed world messages excluded from the pool.",
     technique="TLA+ spec model-checked with TLC (exhaustive, -simulate, liveness); TLC-generated transport schedules replayed into the real tokio / async-std / blocking variants with the model's ScheduleIndependent invariant as differential oracle",
